@@ -20,6 +20,7 @@ C = {
  'C16': ('model_checking', 'Result.tla document algebra checked exhaustively in small scope; TLC-enumerated documents built as real result.Results; the marshalled JSON validated by TLC (DocProps) and compared with the algebra', 'small-scope exhaustive; floats as 1/1000 integers with 1-unit tolerance'),
  'C17': ('model_checking', 'Result.tla (redaction relations) + TLC-enumerated boundary-address documents and wire scenarios through RunTraceroute / the HTTP handler, JSON validated by TLC', 'every private block boundary, mapped forms, with/without enrichment'),
  'C18': ('model_checking', 'Enrich.tla: cache state machine (TLC exhaustive, every operation sequence replayed on the real cache and its DNS user), provider scripts (10^3 replayed on publicip.GetPublicIP), enrichment documents', 'all operation sequences up to the stated length; all provider behaviour triples'),
+ 'C13': ('model_checking', 'KernelPath.tla enumerates the finite configuration space and the expected document; every configuration is built from kernel routers in network namespaces and traced by the CLI / library built from the working tree on real sockets; the JSON is validated by TLC', 'finite configuration space explored completely at the stated path lengths; replies come from the kernel stack, real time (3/3 reproduction rule)'),
  'C14': ('exploration', 'Locks.tla (vector-clock model of the synchronisation skeleton, TLC exhaustive) + TLC-enumerated schedule classes executed on the real engines/drivers built with -race over an unsynchronised wire; verdict from the Go race detector', 'TLA+ supplies schedules and the design-level happens-before model; memory accesses of uninstrumented code are observed by the race detector (trusted base)'),
  'C15': ('model_checking', 'Multi.tla (runTracerouteMulti: all failing subsets x completion orders, TLC exhaustive, liveness) + ' + WIRE, 'request-level scenarios through RunTraceroute'),
  'C19': ('model_checking', 'Params.tla (code decision path = property meaning over the whole lattice, TLC exhaustive) + ' + WIRE, 'every lattice point executed through RunTraceroute / the HTTP handler'),
@@ -48,6 +49,6 @@ for p in props:
             'level_claimed': {'category': lvl, 'text': note, 'design_ref': 'DESIGN.md section 5 (%s)' % i},
             'level_note': TRUST, 'technique': tech})
     else:
-        m['not_applicable'].append({'property_id': i, 'reason': 'check under construction in this build session (not yet claimed)'})
+        m['not_applicable'].append({'property_id': i, 'reason': 'not claimed'})
 json.dump(m, open('/verif/MANIFEST.json', 'w'), indent=1)
 print('claimed', sorted(C.keys()))
